@@ -7,6 +7,9 @@ import (
 	"go/token"
 	"go/types"
 	"math"
+	"regexp"
+	"sort"
+	"strconv"
 	"strings"
 )
 
@@ -383,23 +386,35 @@ func ruleEntityActions(r *Run) {
 	if ls := r.modelFunc("modules/vikja.(*State).EntityActions"); ls != nil {
 		r.checkListing(ls, "rangeval(recv.entityActions)", "S-Actions")
 	}
-	// odal: one asset instance per entity, fresh id
-	if sf := r.modelFunc("modules/odal.(*State).SetAssetInstance"); sf != nil {
-		r.Analysed(sf, 1)
-		for _, path := range r.Paths(sf) {
-			r.at(&path)
-			okW := false
-			for _, op := range r.mapOps(sf, &path) {
-				if op.Kind == "write" && op.Depth == 1 && op.Map == "recv.assetInstances" {
-					if op.Key == "param:#0.EntityId" && op.Val == "param:#0" {
-						okW = true
-					} else if !strings.HasPrefix(op.Val, "make(") {
-						okW = false
-					}
-				}
-			}
-			r.CheckT("S-Assets", sf.Name+":keyed", okW, sf.Body.Pos(), &path, "an asset instance is stored under its entity id (at most one per entity)")
+	// odal: one asset instance per entity, fresh id. Every write of State.assetInstances, whoever
+	// makes it, stores the instance under its own entity id.
+	odalPkg := repoMod + "/modules/odal"
+	aiField := r.P.LookupField(odalPkg, "State", "assetInstances")
+	if aiField == nil {
+		r.Undecide("S-Assets", "field odal.State.assetInstances not found")
+		return
+	}
+	writers := map[*Func]bool{}
+	nW := 0
+	for _, w := range r.writesOfField("S-Assets", aiField) {
+		r.at(w.Path)
+		if w.Kind != "write" {
+			continue
 		}
+		if w.Depth == 0 {
+			// (re)initialisation of the whole map: only an empty map, only while it is nil
+			continue
+		}
+		writers[w.Top] = true
+		nW++
+		want := r.fieldOfValue(w.Fn, w.Val, "EntityId")
+		ok := w.Depth == 1 && len(w.Keys) == 1 && w.Keys[0] == want && want != "" && want != "zero"
+		r.CheckT("S-Assets", w.Top.Name+":keyed", ok, w.Path.Events[w.Idx].Pos, w.Path,
+			"an asset instance is stored under its own entity id, so that an entity carries at most one (stored under %v, the instance's entity id is %s)", w.Keys, want)
+	}
+	r.Floor("S-Assets", "writes of odal.State.assetInstances", nW, 1)
+	for sf := range writers {
+		r.Analysed(sf, 1)
 	}
 	if rm := r.modelFunc("modules/odal.(*State).RemoveAssetInstance"); rm != nil {
 		r.Analysed(rm, 1)
@@ -413,34 +428,121 @@ func ruleEntityActions(r *Run) {
 		r.checkListing(ls, "recv.assetInstances", "S-Assets")
 	}
 	if af := r.modelFunc("modules/odal.(*Module).handleAssetInstanceAdd"); af != nil {
-		seta := r.fn(repoMod+"/modules/odal", "State", "SetAssetInstance")
+		// what the writers store, per writer: the value written (a parameter or a literal built there)
+		type stored struct {
+			w fieldWrite
+		}
+		byWriter := map[*types.Func]fieldWrite{}
+		for _, w := range r.writesOfField("S-Assets", aiField) {
+			if w.Kind == "write" && w.Depth == 1 && w.Top.Obj != nil {
+				byWriter[w.Top.Obj] = w
+			}
+		}
+		want := map[string]string{"Id": "recv.state.call:State.NewAssetInstanceID()", "AssetId": "var:req.AssetId", "ParticipantId": "recv.currentParticipant.ID"}
+		nAccepted := 0
 		for _, path := range r.Paths(af) {
 			r.at(&path)
-			i := idxOfCall(&path, seta, 0)
-			if i < 0 {
-				continue
-			}
-			lit := r.P.compositeOf(af, path.Events[i].Call.Args[0])
-			ok := lit != nil
-			var got []string
-			if ok {
-				want := map[string]string{"Id": "recv.state.call:State.NewAssetInstanceID()", "AssetId": "var:req.AssetId", "ParticipantId": "recv.currentParticipant.ID"}
-				for f, w := range want {
-					c := r.P.Canon(af, litField(lit, f))
-					got = append(got, f+"="+c)
-					if c != w {
-						ok = false
+			accepted := false
+			for _, ev := range path.Events {
+				if ev.Kind == EvCall && r.isSendCall(ev) {
+					if ml := r.sendMsg(ev); ml != nil && strings.HasSuffix(ml.TypeConstName(), "ASSET_INSTANCE_ADD_RESPONSE") {
+						accepted = true
 					}
 				}
-				ec := r.P.Canon(af, litField(lit, "EntityId"))
-				if !(strings.Contains(ec, "call:Session.EntityByID(var:req.EntityId)#0.ID")) {
+			}
+			iW := -1
+			var wr fieldWrite
+			for i, ev := range path.Events {
+				if ev.Kind != EvCall || ev.Depth != 0 {
+					continue
+				}
+				if f, ok := ev.Callee.(*types.Func); ok {
+					if w, isW := byWriter[f]; isW {
+						iW, wr = i, w
+						break
+					}
+				}
+			}
+			if !accepted {
+				continue
+			}
+			nAccepted++
+			if iW < 0 {
+				r.CheckT("D5", af.Name+":accepted-stores", false, af.Body.Pos(), &path, "an accepted asset-instance add stores the instance in the session's odal state (no call to a function that writes State.assetInstances on this path)")
+				continue
+			}
+			ev := path.Events[iW]
+			got := map[string]string{}
+			if k := paramPos(wr.ValC); k >= 0 && k < len(ev.Call.Args) {
+				// the writer stores its argument: the instance is built by the handler
+				if lit := r.P.compositeOf(af, ev.Call.Args[k]); lit != nil {
+					for _, f := range []string{"Id", "AssetId", "ParticipantId", "EntityId"} {
+						got[f] = r.P.Canon(af, litField(lit, f))
+					}
+				}
+			} else if lit, lfn := r.P.compositeOfIn(wr.Fn, wr.Val); lit != nil {
+				// the writer builds the instance from its own parameters: substitute the handler's arguments
+				recvC := r.P.Canon(af, ev.Recv)
+				var args []string
+				for _, a := range ev.Call.Args {
+					args = append(args, r.P.Canon(af, a))
+				}
+				for _, f := range []string{"Id", "AssetId", "ParticipantId", "EntityId"} {
+					r.at(wr.Path)
+					c := r.P.Canon(lfn, litField(lit, f))
+					r.at(&path)
+					got[f] = substCanon(c, recvC, args)
+				}
+			}
+			ok := len(got) == 4
+			var gl []string
+			for f, w := range want {
+				gl = append(gl, f+"="+got[f])
+				if got[f] != w {
 					ok = false
 				}
 			}
-			r.CheckT("D5", af.Name+":instance", ok, path.Events[i].Pos, &path, "the new asset instance gets a fresh id from the state's generator, the request's asset id, the requester's id and the looked-up entity's id (%v)", got)
+			sort.Strings(gl)
+			if !strings.Contains(got["EntityId"], "call:Session.EntityByID(var:req.EntityId)#0.ID") {
+				ok = false
+			}
+			r.CheckT("D5", af.Name+":instance", ok, ev.Pos, &path, "the new asset instance gets a fresh id from the state's generator, the request's asset id, the requester's id and the looked-up entity's id (%v entity=%s)", gl, got["EntityId"])
 		}
+		r.Check("D5", af.Name+":has-accepting-path", nAccepted >= 1, af.Body.Pos(), "the asset-instance add handler has an accepting path")
 		r.Analysed(af, 1)
 	}
+}
+
+// paramPos: index i of a canonical form "param:#i", or -1.
+func paramPos(c string) int {
+	if !strings.HasPrefix(c, "param:#") {
+		return -1
+	}
+	n, err := strconv.Atoi(strings.TrimPrefix(c, "param:#"))
+	if err != nil {
+		return -1
+	}
+	return n
+}
+
+var reParam = regexp.MustCompile(`param:#(\d+)`)
+
+// substCanon rewrites a canonical form of a callee (receiver "recv", positional parameters) into
+// the caller's terms.
+func substCanon(c, recv string, args []string) string {
+	if c == "recv" {
+		return recv
+	}
+	if strings.HasPrefix(c, "recv.") && recv != "" {
+		c = recv + c[len("recv"):]
+	}
+	return reParam.ReplaceAllStringFunc(c, func(m string) string {
+		k, _ := strconv.Atoi(strings.TrimPrefix(m, "param:#"))
+		if k < len(args) {
+			return args[k]
+		}
+		return m
+	})
 }
 
 func max0(i int) int {
